@@ -239,3 +239,20 @@ V("c11-insert-front", "break", ["C11"], (OP, "            result.append(\n      
 V("c11-decay-mult", "break", ["C11"], (OP, "                param_weight_decay /= float(param_lr)  # type: ignore", "                param_weight_decay *= float(param_lr)  # type: ignore"))
 V("c11-keep-comprehension", "keep", ["C11", "C10"], (OP, "                    **{\n                        k: v\n                        for k, v in group.items()\n                        if k not in (\"params\", \"lr\", \"weight_decay\")\n                    },", "                    **{k: group[k] for k in group if k not in {\"params\", \"lr\", \"weight_decay\"}},"))
 V("c11-keep-outofplace", "keep", ["C11", "C10"], (OP, "                param_weight_decay /= float(param_lr)  # type: ignore", "                param_weight_decay = param_weight_decay / float(param_lr)"))
+
+# ---------------------------------------------------------------- C19
+V("c19-flat-rewrite", "break", ["C19"], (TS, "        user.args = map_arg(user.args, replace)\n", "        user.args = tuple(replace(a) if isinstance(a, Node) else a for a in user.args)\n"), expect="Tried to erase")
+V("c19-kwargs-missed", "break", ["C19"], (TS, "        user.kwargs = map_arg(user.kwargs, replace)\n", ""))
+V("c19-no-deepcopy-nonfloat", "break", ["C19"], (TS, "    graph = deepcopy(graph)\n    for n in graph.nodes:\n        if n.name == \"output\":\n            continue\n", "    for n in graph.nodes:\n        if n.name == \"output\":\n            continue\n"), expect="input-unchanged")
+V("c19-no-deepcopy-samescale", "break", ["C19"], (TS, "    graph = deepcopy(graph)\n    for n in graph.nodes:\n        if n.name == \"output\" or not", "    for n in graph.nodes:\n        if n.name == \"output\" or not"))
+V("c19-abs-mean", "break", ["C19"], (TS, "    return isclose(a.mean_abs, b.mean_abs, rel_tol=rtol)", "    return isclose(a.abs_mean, b.abs_mean, rel_tol=rtol)"), expect="quantity")
+V("c19-ignore-bwd", "break", ["C19"], (TS, "    return _directions_same_scale(a.fwd, b.fwd, rtol) and _directions_same_scale(\n        a.bwd, b.bwd, rtol\n    )", "    return _directions_same_scale(a.fwd, b.fwd, rtol)"))
+V("c19-rtol-dropped", "break", ["C19"], (TS, "            if _metrics_same_scale(n_metrics, a_metrics, rtol):", "            if _metrics_same_scale(n_metrics, a_metrics):"), expect="rtol")
+V("c19-bypass-two-inputs", "break", ["C19"], (TS, "            a = float_tensor_args[0] if len(float_tensor_args) == 1 else None", "            a = float_tensor_args[0] if len(float_tensor_args) >= 1 else None"))
+V("c19-samescale-multi", "break", ["C19"], (TS, "        if len(float_tensor_args) == 1:\n            a = float_tensor_args[0]\n            a_metrics", "        if len(float_tensor_args) >= 1:\n            a = float_tensor_args[0]\n            a_metrics"))
+V("c19-erase-first", "break", ["C19"], (TS, "        user.kwargs = map_arg(user.kwargs, replace)\n    graph.erase_node(node)", "        user.kwargs = map_arg(user.kwargs, replace)\n        graph.erase_node(node)"))
+V("c19-output-pruned", "break", ["C19"], (TS, "        if n.name == \"output\":\n            continue\n\n        if not n.meta.get", "        if not n.meta.get"))
+V("c19-selected-copy", "break", ["C19"], (TS, "    for n in graph.nodes:\n        if n.target in targets:", "    graph = deepcopy(graph)\n    for n in graph.nodes:\n        if n.target in targets:"))
+V("c19-selected-bypass", "break", ["C19"], (TS, "            logger.info(\"pruning node: %s\", n)\n            _prune(graph, n)", "            logger.info(\"pruning node: %s\", n)\n            _prune(graph, n, n.args[0] if n.args else None)"))
+V("c19-one-sided-bwd-same", "break", ["C19"], (TS, "    if a.bwd is None or b.bwd is None:  # pragma: no cover\n        return False", "    if a.bwd is None or b.bwd is None:  # pragma: no cover\n        return _directions_same_scale(a.fwd, b.fwd, rtol)"))
+V("c19-keep-helper-style", "keep", ["C19"], (TS, "    def replace(n: Node) -> Optional[Node]:\n        return replacement_arg if n == node else n\n", "    def replace(n: Node) -> Optional[Node]:\n        if n is node:\n            return replacement_arg\n        return n\n"))
